@@ -445,11 +445,105 @@ func lockProgram(p *pkg, prefix, fnName string) ([][]lkEv, string, bool) {
 	return out, p.pos(fn), true
 }
 
+// ---- Client field writes with the lockset held at the write (interprocedural over methods of Client) ----
+//
+// Extracted from the AST: assignments (=, op=, ++/--, := never applies) whose left-hand side is
+// recv.field or recv.field[i] inside a method of Client, on every path (as produced by lockProgram) of
+// every method reachable from the roots through direct calls recv.method(...), with the mutexes the
+// calling chain holds at that point (Lock/RLock minus Unlock/RUnlock in path order, deferred unlocks
+// at the path's end).  NOT extracted: writes through an alias or pointer (p := &c.f; *p = v),
+// mutation of a map/slice/struct reached through a local copy of a field, writes performed by
+// non-method functions that receive the Client, calls through function values / interfaces /
+// method values, function literals that are not deferred or immediately invoked, goroutines started
+// inside the methods, and writes to other objects (smtp.Client, Msg).
+type fieldWrite struct {
+	fn, field string
+	ex, rd    []string
+}
+
+func lkRemove(xs []string, n string) []string {
+	out := append([]string(nil), xs...)
+	for i, x := range out {
+		if x == n {
+			return append(out[:i], out[i+1:]...)
+		}
+	}
+	return out
+}
+
+func clientWrites(p *pkg, roots []string) (ws []fieldWrite, reached []string) {
+	seen := map[string]bool{}
+	wseen := map[string]bool{}
+	var walk func(fn string, ex, rd []string)
+	walk = func(fn string, ex, rd []string) {
+		key := fn + "|" + strings.Join(ex, ",") + "|" + strings.Join(rd, ",")
+		if seen[key] {
+			return
+		}
+		seen[key] = true
+		decl, ok := p.funcs["Client."+fn]
+		if !ok || decl.Body == nil {
+			return
+		}
+		known := false
+		for _, r := range reached {
+			if r == fn {
+				known = true
+			}
+		}
+		if !known {
+			reached = append(reached, fn)
+		}
+		recv := ""
+		if decl.Recv != nil && len(decl.Recv.List) > 0 && len(decl.Recv.List[0].Names) > 0 {
+			recv = decl.Recv.List[0].Names[0].Name
+		}
+		paths, _, _ := lockProgram(p, "", "Client."+fn)
+		for _, pa := range paths {
+			e, r := append([]string(nil), ex...), append([]string(nil), rd...)
+			for _, ev := range pa {
+				// mutex names are normalised to the field name so that different receiver identifiers agree
+				n := ev.name
+				if recv != "" && strings.HasPrefix(n, recv+".") {
+					n = "c." + n[len(recv)+1:]
+				}
+				switch ev.kind {
+				case "Lock":
+					e = append(e, n)
+				case "Unlock":
+					e = lkRemove(e, n)
+				case "RLock":
+					r = append(r, n)
+				case "RUnlock":
+					r = lkRemove(r, n)
+				case "Write":
+					k := fn + "|" + n + "|" + strings.Join(e, ",") + "|" + strings.Join(r, ",")
+					if !wseen[k] {
+						wseen[k] = true
+						ws = append(ws, fieldWrite{fn, n, append([]string(nil), e...), append([]string(nil), r...)})
+					}
+				case "Call":
+					if recv != "" && strings.HasPrefix(ev.name, recv+".") {
+						m := ev.name[len(recv)+1:]
+						if _, isMethod := p.funcs["Client."+m]; isMethod && !strings.Contains(m, ".") {
+							walk(m, e, r)
+						}
+					}
+				}
+			}
+		}
+	}
+	for _, r := range roots {
+		walk(r, nil, nil)
+	}
+	return
+}
+
 func init() {
 	extras = append(extras, func(p, sp *pkg) {
 		type item struct {
 			coq, prefix, fn string
-			pk          *pkg
+			pk              *pkg
 		}
 		items := []item{
 			{"send_paths", "", "Client.Send", p},
@@ -488,6 +582,16 @@ func init() {
 			}
 			results = append(results, res{it, paths, pos, ok})
 		}
+		roots := []string{"DialWithContext", "DialAndSendWithContext", "DialAndSend", "Send", "Close", "Reset",
+			"DialToSMTPClientWithContext", "SendWithSMTPClient", "CloseWithSMTPClient", "ResetWithSMTPClient"}
+		writes, reached := clientWrites(p, roots)
+		for _, w := range writes {
+			em.ident("Client." + w.fn)
+			em.ident(w.field)
+			for _, x := range append(append([]string(nil), w.ex...), w.rd...) {
+				em.ident(x)
+			}
+		}
 		emit("\n(* ---- lock programs (T1e, engine locks / C13): every control-flow path of the anchored functions as the\n")
 		emit("        sequence of Lock/RLock/Unlock/RUnlock (defer moved to the path's end), calls and receiver-field accesses,\n")
 		emit("        in source order; names are the source text (functions of package smtp prefixed \"smtp:\") ---- *)\n")
@@ -514,5 +618,24 @@ func init() {
 			}
 			emit("].\n")
 		}
+		// Client field writes
+		emit("(* writes of mail.Client fields on the paths reachable from %s\n   through direct method calls (methods reached: %s): (method, field, mutexes held exclusively, mutexes read-held) *)\n",
+			strings.Join(roots, ", "), strings.Join(reached, ", "))
+		emit("Definition client_field_writes : list (list N * list N * list (list N) * list (list N)) :=\n  [")
+		for i, w := range writes {
+			if i > 0 {
+				emit(";\n   ")
+			}
+			ids := func(xs []string) string {
+				parts := make([]string, len(xs))
+				for j, x := range xs {
+					parts[j] = em.names[x]
+				}
+				return "[" + strings.Join(parts, "; ") + "]"
+			}
+			emit("(%s, %s, %s, %s)", em.names["Client."+w.fn], em.names[w.field], ids(w.ex), ids(w.rd))
+		}
+		emit("].\n")
+		emit("Definition client_reached_methods : N := %d.\n", len(reached))
 	})
 }
